@@ -17,6 +17,26 @@ func (s *monitorContext) GetKey(key string) string {
 	return ""
 }
 
+// StaticAnalysisAware is implemented by contexts that know whether the evaluation they serve is a static
+// analysis (EvalStaticStage) rather than an evaluation on input. Contexts that wrap another context
+// (sub-expressions, user-defined functions) pass the question on
+type StaticAnalysisAware interface {
+	InStaticAnalysis() bool
+}
+
+func (s *monitorContext) InStaticAnalysis() bool {
+	return true
+}
+
+// InStaticAnalysis is true when a stage is being evaluated by EvalStaticStage, directly or through
+// sub-contexts. A stage with a memory (eg. a detected date format) must not learn from such an evaluation
+func InStaticAnalysis(context KeyBuilderContext) bool {
+	if aware, ok := context.(StaticAnalysisAware); ok {
+		return aware.InStaticAnalysis()
+	}
+	return false
+}
+
 func EvalStaticStage(stage KeyBuilderStage) (ret string, ok bool) {
 	var monitor monitorContext
 	ret = stage(&monitor)
